@@ -33,6 +33,8 @@ Record StrictTotalOrder {A} (less : A -> A -> bool) : Prop := {
 
 (* "a is not after b": the non-strict order of a less function *)
 Definition le_of {A} (less : A -> A -> bool) (a b : A) : Prop := less b a = false.
+(* "a is not before b" (descending order: no element is less than a later one) *)
+Definition ge_of {A} (less : A -> A -> bool) (a b : A) : Prop := less a b = false.
 (* the order cannot distinguish a and b *)
 Definition eqv {A} (less : A -> A -> bool) (a b : A) : bool := negb (less a b) && negb (less b a).
 Definition flip_less {A} (less : A -> A -> bool) : A -> A -> bool := fun a b => less b a.
